@@ -198,6 +198,16 @@ func bceCrossCheck(r *Run, p *Prog, res *CursorResult) {
 			}
 		}
 	}
+	// calls that the compiler inlines at their call site: the read primitive (its index is guarded, see O1 above) and
+	// library methods (trusted base); their bounds checks are reported on the caller's line
+	for _, f := range p.FuncsOf(pkgIDL) {
+		for _, cs := range callsIn(f, true) {
+			t := cs.Common.StaticCallee()
+			if t == res.A.next || (t != nil && !p.InRepo(t)) {
+				have[fmt.Sprint(p.Fset.Position(cs.Instr.Pos()).Line)] = true
+			}
+		}
+	}
 	var miss []string
 	for l := range lines {
 		if !have[l] {
